@@ -30,7 +30,7 @@ func runC07(c *Ctx) {
 }
 
 func c07R2(c *Ctx) {
-	r := c.R.Rule("R2", "K3/K7 v1 broken latch: the deferred latch of DLQHandlerNode.Nack reads the variable that receives the dlqRecord and Handler.Write errors, every later return returns that variable, and Ack/Nack act only while the node is running", 6)
+	r := c.R.Rule("R2", "K3/K7 v1 broken latch: the deferred latch of DLQHandlerNode.Nack reads the variable that receives the dlqRecord and Handler.Write errors, every later return returns that variable, the write happens under the handler mutex, and Ack/Nack act only while the node is running", 7)
 	fn := c.SSA(r, pStream, "(*DLQHandlerNode).Nack")
 	if fn == nil {
 		return
@@ -143,6 +143,14 @@ func c07R2(c *Ctx) {
 			}
 		}
 		c.R.Check(ok, r, "DLQHandlerNode.Nack: returns the latched error", c.Pos(posOf(ret)), "return err / nil / a wrap of err behind err != nil", "a return after the latch registration returns an error while the latched variable may be nil: that failure would not break the handler", true)
+	}
+	// the DLQ write is a paired Write-then-Ack exchange on one connector stream: it happens under the
+	// handler's mutex, so the nacks of two sources cannot interleave and read each other's ack
+	{
+		ls := kit.Locksets(fn, c.W.StdLockSpec(), nil)
+		for _, call := range kit.CallsTo(fn, write) {
+			c.R.Check(containsLock(ls[call], "recv.m"), r, "DLQHandlerNode.Nack: Handler.Write under the handler mutex", c.Pos(call.Pos()), "held "+ls[call], "Handler.Write runs without DLQHandlerNode.m held: with several sources sharing the DLQ, two nacks interleave on the connector stream, each reads the other's ack and both fail although both records were stored — the records are dead-lettered again after the restart", true)
+		}
 	}
 	// running gate for Ack and Nack
 	watch := c.W.LookupObj(pStream, "nodeStateRunning")
